@@ -34,11 +34,15 @@ LEVEL = "model_checking"
 DETERMINISM_REPLAY = False  # engines verify replay of prefixes themselves
 RULE = (
     "threads: main {enter A; spawn k workers; log; join; leave A} with worker kinds {raw thread, "
-    "preserve_context thread} x worker bodies from 9 small logging programs (messages, nested actions, "
+    "preserve_context thread, thread running in a copy of the spawner's context (asyncio.to_thread)} x worker bodies from 9 small logging programs (messages, nested actions, "
     "failing action, start_task, re-entering the shared parent action's context()), k = 2 (all ordered pairs of kind x body from a reduced set) and k = 3 "
     "(selected); scheduling point before every logging call; ALL interleavings.  coroutines: parent in A "
     "creates k tasks (same bodies, await point before every op) and logs between awaits; ALL resolution "
-    "orders of pending awaits.  states = schedule-tree nodes, transitions = scheduling decisions; "
+    "orders of pending awaits.  projections: 2-3 threads x 1-3 operations from {message, action, action failing "
+    "with an exception whose extractor raises / returns fields, OSError, message a destination fails on, "
+    "typed message whose serializer raises, write_traceback, add_global_fields, log_call function}, scheduling "
+    "point before every operation and inside every logging call (slow destination); every thread's own "
+    "message list must equal the one of the sequential schedule.  states = schedule-tree nodes, transitions = scheduling decisions; "
     "non-trivial = harness with > 1 distinct emission order"
 )
 ASSUMPTIONS = [
@@ -239,6 +243,7 @@ def thread_harnesses(tier):
         out.append([["raw", 5], ["pc", 6]])
     out.append([["raw", 4, "seed"], ["raw", 4, "seed"]])
     out.append([["raw", 1, "seed"], ["raw", 0, "seed"]])
+    out += [[["ctx", 0], ["raw", 1]], [["ctx", 1], ["pc", 0]], [["ctx", 7], ["raw", 0]], [["ctx", 2], ["ctx", 4]]]
     three = [[["raw", 0], ["pc", 0], ["raw", 4]]]
     if tier == "thorough":
         out.append([["pc", 5], ["pc", 6]])
@@ -265,19 +270,43 @@ def BOUNDS(tier):
     return {
         "thread_harnesses": len(thread_harnesses(tier)),
         "aio_harnesses": len(aio_harnesses(tier)),
+        "projection_harnesses": len(proj_harnesses(tier)),
         "preemption_bound": "unbounded (all interleavings at call-boundary granularity)",
     }
+
+
+def proj_harnesses(tier):
+    """Threads whose logging calls can be interleaved *inside* the call (slow destination): each
+    thread's own log must not depend on the schedule (vkit/proj.py)."""
+    from vkit import proj
+
+    multi = [
+        (("badx", "m"), ("errno", "poison")),
+        (("m",), ("badx",), ("poison",)),
+        (("badx", "custom"), ("custom", "badx")),
+        (("badser", "poison"), ("poison", "badser")),
+    ]
+    if tier == "thorough":
+        multi += [
+            (("badx",), ("badx",), ("badx",)),
+            (("poison",), ("poison",), ("badser",)),
+            (("ok", "badx", "m"), ("errno", "tb")),
+            (("call", "poison"), ("badser", "custom")),
+        ]
+    return proj.harnesses(proj.OPS, two_op=multi)
 
 
 def units(tier):
     return [["thr", i] for i in range(len(thread_harnesses(tier)))] + [
         ["aio", i] for i in range(len(aio_harnesses(tier)))
-    ]
+    ] + [["proj", i] for i in range(len(proj_harnesses(tier)))]
 
 
 def cases(unit, tier):
     if unit[0] == "thr":
         yield ["thr", thread_harnesses(tier)[unit[1]]]
+    elif unit[0] == "proj":
+        yield ["proj", proj_harnesses(tier)[unit[1]]]
     else:
         yield ["aio", aio_harnesses(tier)[unit[1]]]
 
@@ -337,6 +366,12 @@ def run_threads(harness):
                         w = Worker(name, None, problems)
                         w.seed_rng = len(spec) > 2
                         fn = (lambda w=w, bi=bi: w.run_sync(BODIES[bi], lambda: s.point(("op", w.name))))
+                    elif kind == "ctx":
+                        # a thread that runs in a copy of the spawner's context (asyncio.to_thread,
+                        # contextvars.copy_context().run): the spawner's action is its current action
+                        w = Worker(name, A, problems)
+                        ctx = contextvars.copy_context()
+                        fn = (lambda w=w, bi=bi, ctx=ctx: ctx.run(w.run_sync, BODIES[bi], lambda: s.point(("op", w.name))))
                     else:
                         w = Worker(name, "REMOTE", problems)
 
@@ -388,9 +423,12 @@ def run_threads(harness):
             if kind == "raw":
                 # no current action: each action is its own task, each message a one-message task
                 top.extend(ref_nodes(forest))
+            elif kind == "ctx":
+                a_children.extend(ref_nodes(forest))
             else:
                 remote.append(["a", "eliot:remote_task", None, "succeeded", ref_nodes(forest)])
-        a_children = remote + [["m", "M.1"], ["m", "M.2"]]
+        a_children = remote + a_children + [["m", "M.1"], ["m", "M.2"]]
+        a_children.sort(key=lambda x: json.dumps(x))
         top.append(["a", "main:A", "A", "succeeded", a_children])
         top.sort(key=lambda x: json.dumps(x))
         return top
@@ -416,7 +454,7 @@ def run_threads(harness):
             viol.append((sig, dict(d, schedule=sched)))
         orders.add(tuple(m.get("who") or m.get("action_type") for m in o["msgs"]))
         try:
-            forest, ninc = canon_forest(o["msgs"])
+            forest, ninc = canon_forest(o["msgs"], sort_children_of="A")
         except Exception as e:
             viol.append(("parser-raised", {"error": repr(e)[:200], "schedule": sched}))
             continue
@@ -559,6 +597,11 @@ def run_case(case):
     try:
         if kind == "thr":
             execs, states, transitions, norders, nforests, viol = run_threads(harness)
+        elif kind == "proj":
+            from vkit import proj
+
+            execs, states, transitions, norders, viol = proj.run(harness)
+            nforests = 1
         else:
             execs, states, transitions, norders, nforests, viol = run_aio(harness)
     finally:
